@@ -14,7 +14,7 @@
    The Spec predicates [dest_ok], [normal_exit_ok], [calls_ok] are the ones the
    correspondence check evaluates on the real observations. *)
 From Boltons Require Import Lib.Prelude Model.C04_Model Spec.C04_Spec Check.C04_Check
-     Proofs.C04_Inv Proofs.C04_Single Proofs.C04_Transfer Proofs.C04_Examples.
+     Proofs.C04_Inv Proofs.C04_Abort Proofs.C04_Single Proofs.C04_Transfer Proofs.C04_Examples.
 Open Scope N_scope.
 
 (* At any crash point, under any fault schedule and any buffering behaviour, the destination holds
@@ -30,6 +30,19 @@ Theorem C04_crash :
             (content_power (w_fs w) (c_dest c)) = true.
 Proof. exact crash_safe_lemma. Qed.
 Print Assumptions C04_crash.
+
+(* ... and when the with-block is left by an exception there is no "complete new content": at every
+   crash point of such a run (and at its end) the destination holds what it held before, never what
+   the body had written so far; such a run never returns normally. *)
+Theorem C04_crash_aborted :
+  forall c ops s0 umask crash sched o w,
+    c_dest c <> c_part c -> same_dir (c_part c) = true -> wf s0 ->
+    run_save c ops true s0 umask crash sched = (o, w) ->
+    dest_ok_aborted (content_kill s0 (c_dest c) :: appear_contents sched) (content_kill (w_fs w) (c_dest c)) = true /\
+    dest_ok_aborted (content_power s0 (c_dest c) :: appear_contents sched) (content_power (w_fs w) (c_dest c)) = true /\
+    (forall x, o <> Val x).
+Proof. exact aborted_lemma. Qed.
+Print Assumptions C04_crash_aborted.
 
 (* The sequence of primitive calls of every run (complete, failed or cut short by a crash) passes the
    Spec's scan: exclusive creation of one part file next to the destination, no write after close,
